@@ -108,6 +108,12 @@ func (s CallableSignalSchema[StepData, InputType]) Call(ctx context.Context, ste
 		return InvalidInputError{err}
 	}
 
-	s.handler(ctx, stepData.(StepData), input.(InputType))
+	// Step data is nil when the step has no initializer and StepData is an interface type (e.g. any);
+	// asserting a nil interface would panic.
+	var typedStepData StepData
+	if stepData != nil {
+		typedStepData = stepData.(StepData)
+	}
+	s.handler(ctx, typedStepData, input.(InputType))
 	return nil
 }
